@@ -18,6 +18,7 @@ import json
 import os
 import re
 import resource
+import shutil
 import sys
 import time
 
@@ -32,6 +33,7 @@ LIB = os.path.join(HERE, "lib.janet")
 WINDOWS = os.path.join(HERE, "windows.json")
 
 TOP = 10 ** 6
+HANG_TIMEOUT = 20          # seconds; the same items take milliseconds when they terminate
 STACK_BYTES = 8 << 20
 
 # ---------------------------------------------------------------------------------------------
@@ -193,6 +195,24 @@ class Runner:
         if os.environ.get("C19_PROGRESS"):
             sys.stderr.write("[%.0fs] ran %d items (max depth %d, chunk %d)\n" % (
                 self.chk.elapsed(), len(work), max(d for _p, d in work), chunk))
+        self.record(work, res, chunk)
+
+    def run_isolated(self, work, timeout, mem_mb=None):
+        """One process per item, a single attempt each (a hang costs `timeout` once)."""
+        work = [(p, d) for p, d in work if d not in p.obs]
+        if not work:
+            return
+        exe = vjanet("fast")
+        old = core.MEM_LIMIT
+        if mem_mb:
+            core.MEM_LIMIT = mem_mb * 1024 * 1024
+        try:
+            res = pmap(_one_isolated, [(exe, p.item(d), self.env, timeout) for p, d in work])
+        finally:
+            core.MEM_LIMIT = old
+        self.record(work, res, 1)
+
+    def record(self, work, res, chunk):
         for (p, d), (st, text) in zip(work, res):
             o = classify(st, text)
             p.obs[d] = o
@@ -202,6 +222,26 @@ class Runner:
             self.chk.outcome((p.family, p.consumer, o.group))
             if o.cls in ("TIMEOUT", "OOM") and (p.stopped is None or d < p.stopped[0]):
                 p.stopped = (d, o.cls)
+
+
+def _one_isolated(args):
+    exe, item, env, timeout = args
+    d = mktmp()
+    try:
+        ip, op = os.path.join(d, "items.jdn"), os.path.join(d, "out.txt")
+        with open(ip, "w") as f:
+            f.write(item + "\n")
+        r = run(exe, [DRIVER, ip, op], env=env, timeout=timeout)
+        res, _begun, done, fatal = core._parse_out(op)
+        if fatal:
+            raise HarnessError("batch driver fatal: %s" % fatal)
+        if r.timed_out:
+            return ("TIMEOUT", r.describe())
+        if done and 0 in res and not r.crashed:
+            return res[0]
+        return ("CRASH", r.describe())
+    finally:
+        shutil.rmtree(d, ignore_errors=True)
 
 
 def interleave(work, nchunks):
@@ -331,8 +371,9 @@ def main():
     def sched(p, d):
         return d <= cap[p.key] and d not in p.obs and (p.stopped is None or d < p.stopped[0])
 
-    # -- round 0: every pair at depth 1, one process per item: finds the inputs that hang at any size
-    run.run([(p, 1) for p in sweep_pairs], chunk=1, timeout=30, mem_mb=1500)
+    # -- round 0: every self-referential pair at size 1, one process per item with a short watchdog:
+    #    finds the inputs on which a consumer loops for ever (later sizes of such a pair are not run)
+    run.run_isolated([(p, 1) for p in sweep_pairs if p.kind == "cyclic"], timeout=HANG_TIMEOUT, mem_mb=1500)
     chk.part("round0", items=run.items, wall_s=round(chk.elapsed(), 1))
 
     # -- the sweep, ascending. Pairs that already crashed run one item per process (a crash costs the
@@ -357,7 +398,7 @@ def main():
             chk.cap("depth sweep stopped before depth %d (time budget)" % d)
             break
         work = [(p, d) for p in sweep_pairs if sched(p, d)]
-        run_split(work, 48, 900, jobs=16 if d < (1 << 18) else 12)
+        run_split(work, 48, 400, jobs=16 if d < (1 << 18) else 12)
         chk.part("depth_%d" % d, items=len(work), wall_s=round(chk.elapsed(), 1))
         chk.cov["bound_completed"] = "depth %d" % d
 
